@@ -170,9 +170,18 @@ enum Inst {
 }
 
 fn run_inner<O: Op>(op: &O, x: &[BigUint], inst: Inst, plan: HashMap<usize, Fault<F>>) -> Run {
+    run_inner_p(op, x, inst, plan).0
+}
+
+/// Faulted run that also hands back the mock prover (tables after the run).
+pub fn run_faulted_with_prover<O: Op>(op: &O, x: &[BigUint], n_public: usize, plan: HashMap<usize, Fault<F>>) -> (Run, Option<MockProver<F>>) {
+    run_inner_p(op, x, Inst::ReadBack(n_public), plan)
+}
+
+fn run_inner_p<O: Op>(op: &O, x: &[BigUint], inst: Inst, plan: HashMap<usize, Fault<F>>) -> (Run, Option<MockProver<F>>) {
     let k = match op_k(op, x) {
         Ok(k) => k,
-        Err(e) => return Run { outcome: Outcome::Panic(format!("min_k: {e}")), log: vec![], public: vec![] },
+        Err(e) => return (Run { outcome: Outcome::Panic(format!("min_k: {e}")), log: vec![], public: vec![] }, None),
     };
     let rel = OpRel { op: op.clone() };
     let (given, n_pi) = match &inst {
@@ -186,8 +195,8 @@ fn run_inner<O: Op>(op: &O, x: &[BigUint], inst: Inst, plan: HashMap<usize, Faul
     });
     let report = verif_hooks::end();
     let mut prover = match res {
-        Err(p) => return Run { outcome: Outcome::Panic(p), log: report.log, public: given },
-        Ok(Err(e)) => return Run { outcome: Outcome::SynthErr(format!("{e:?}")), log: report.log, public: given },
+        Err(p) => return (Run { outcome: Outcome::Panic(p), log: report.log, public: given }, None),
+        Ok(Err(e)) => return (Run { outcome: Outcome::SynthErr(format!("{e:?}")), log: report.log, public: given }, None),
         Ok(Ok(p)) => p,
     };
     let mut public = given;
@@ -231,7 +240,7 @@ fn run_inner<O: Op>(op: &O, x: &[BigUint], inst: Inst, plan: HashMap<usize, Faul
         Ok(Ok(())) => Outcome::Accept,
         Ok(Err(e)) => Outcome::Reject(format!("{} failures; first: {}", e.len(), e.first().map(|f| format!("{f:?}").chars().take(300).collect::<String>()).unwrap_or_default())),
     };
-    Run { outcome, log: report.log, public }
+    (Run { outcome, log: report.log, public }, Some(prover))
 }
 
 /// Honest run against a given instance vector.
